@@ -154,6 +154,10 @@ def run(ctx):
             ok = any(isinstance(t.args[1], Num) and t.args[1].r == xs.r for t in apps) and ys.length == xs.length
         ctx.check(ok, 'C04.5', 'FunctionRFA: y[i] = function(x[i]) over the returned grid, same extent', show(res.items[1], 300),
                   st.rfa.loc(), st.rfa.qualname, 'function-y')
+    # the helper contracts the derivation above relies on (C17.1 / C17.2)
+    from . import c17
+    c17.check_oversample(ctx)
+    c17.check_extend(ctx)
     ctx.trust('helper length contracts: len(oversample_*(a, k)) = (len(a)-1)*k+1; extend_*(a, n, both) adds n per side (decided under C17)',
               'numpy.linspace(a, b, k)[0] == a exactly (bit-for-bit alignment of every n-th abscissa is this library guarantee)')
     ctx.notes.append('NOT DECIDED: finiteness of values; strict monotonicity of the abscissae (numeric consequences of the precondition).')
